@@ -393,6 +393,29 @@ func runC19(c *Ctx) error {
 			}
 		}
 	}
+	// the exported sub-builder under the EAP-5G helpers: fields equal the arguments (24-bit vendor id, 32-bit vendor type,
+	// data of any size), and the result owns its data
+	for i, n := 0, c.N(200, 5000); i < n; i++ {
+		vid, vty := uint32(rng.Pick([]int{0, 1, 10415, 0xffff, 0x10000, 0x7a28af, 0xffffff, rng.Intn(1 << 24)})), uint32(rng.U64())
+		if rng.Chance(1, 3) {
+			vty = uint32(rng.Pick([]int{0, 1, 3, 0xffff, 0x10000, 0x7fffffff, 0xffffffff}))
+		}
+		data := rng.Bytes(rng.Pick([]int{0, 1, 2, 4, 255, 256, 1000, rng.Range(0, 64)}))
+		cs := fmt.Sprintf("(build_eap_expanded %d %d %s)", vid, vty, hx(data))
+		arg := append([]byte(nil), data...)
+		var got string
+		out := run(func() string {
+			x := message.BuildEapExpanded(vid, vty, arg)
+			wipe(arg) // the caller's buffer is transient
+			got = fmt.Sprintf("(expanded %d %d %s)", x.VendorID, x.VendorType, hx(x.VendorData))
+			return got
+		})
+		r.ImplRuns++
+		r.Count(cs, len(data) > 0, "sub-builder:build_eap_expanded")
+		if want := fmt.Sprintf("(expanded %d %d %s)", vid, vty, hx(data)); out != want {
+			fail("BuildEapExpanded does not return exactly the given vendor id, vendor type and data", cs, want, out)
+		}
+	}
 	return nil
 }
 
